@@ -239,6 +239,11 @@ func (v *ValDialect) Val(i int) interface{} {
 		if i%5 == 3 {
 			return "v<tag>&" + strconv.Itoa(i)
 		}
+		if i%7 == 2 {
+			// encodings whose length sits on the 1-byte/2-byte varint boundary (127, 128, 129 bytes as JSON)
+			s := "v" + strconv.Itoa(i) + "-"
+			return s + strings.Repeat("x", 125+(i/7)%3-len(s))
+		}
 		return "v" + strconv.Itoa(i)
 	case "struct":
 		return SVal{X: i, Y: "y" + strconv.Itoa(i%5)}
